@@ -3647,7 +3647,11 @@ func tabSize(tokens []Token, _ string) pr.CssProperty {
 			return pr.NewDim(pr.Float(number.ValueF), 0).ToValue()
 		}
 	}
-	return getLength(token, false, false).ToValue()
+	length := getLength(token, false, false)
+	if length.IsNone() {
+		return nil
+	}
+	return length.ToValue()
 }
 
 // @validator(unstable=true)
